@@ -5,7 +5,8 @@
 //!     op ::= sp <a> <name|-> <kind> <ps>   spawn actor <a> under name index <name> (or anonymous);
 //!                                          kind = ok | fail | park | remote | remotepark ; ps=1: post_stop parks
 //!          | go <a> ok|fail                let a parked pre_start return Ok / Err
-//!          | stop <a> | kill <a>           the actor begins to stop
+//!          | stop <a> | kill <a> | err <a> | panic <a>   the actor begins to stop (stop(), kill(), a handler
+//!                                          that returns Err / panics)
 //!          | rel <a>                       let the parked post_stop return
 //!          | wait <a>                      spawn a task awaiting a.wait(None)
 //!          | wh <name>                     registry::where_is
@@ -73,6 +74,13 @@ impl Actor for H {
             Ok(cfg)
         } else {
             Err("pre_start failed".into())
+        }
+    }
+    async fn handle(&self, _: ActorRef<()>, _: (), cfg: &mut Cfg) -> Result<(), ActorProcessingErr> {
+        if *cfg.pre_ok.lock().unwrap() {
+            Err("handler failed".into())
+        } else {
+            panic!("handler panic")
         }
     }
     async fn post_stop(&self, _: ActorRef<()>, cfg: &mut Cfg) -> Result<(), ActorProcessingErr> {
@@ -207,16 +215,21 @@ async fn run_hist(rest: &str) -> String {
                 }
                 s.pre_gate.open();
             }
-            "stop" | "kill" => {
+            "stop" | "kill" | "err" | "panic" => {
                 let a: u64 = w[1].parse().unwrap();
                 // (no cell = the spawn failed although the scenario expected it to succeed: the
                 // divergence is already in the history; ignore operations on that actor)
                 let Some(c) = slots[&a].cell.lock().unwrap().clone() else { continue };
                 hist.lock().unwrap().push(format!("EBegin {a}"));
-                if w[0] == "stop" {
-                    c.stop(None);
-                } else {
-                    c.kill();
+                match w[0] {
+                    "stop" => c.stop(None),
+                    "kill" => c.kill(),
+                    k => {
+                        // the (only) message makes the handler fail: Err when pre_ok is set, panic otherwise
+                        *slots[&a].pre_ok.lock().unwrap() = k == "err";
+                        let r: ActorRef<()> = c.clone().into();
+                        let _ = r.cast(());
+                    }
                 }
             }
             "rel" => {
@@ -692,6 +705,12 @@ fn run_hammer(rt: &tokio::runtime::Runtime, threads: usize, names: usize, iters:
 }
 
 fn main() {
+    std::panic::set_hook(Box::new(|info| {
+        let msg = info.to_string();
+        if !msg.contains("handler panic") {
+            eprintln!("{msg}");
+        }
+    }));
     let mut out = Vec::new();
     let mut mt: Option<tokio::runtime::Runtime> = None;
     for line in stdin_lines() {
